@@ -31,6 +31,16 @@ struct Big {
     rounds: u64,
 }
 
+/// Several independent rings of tasks: in each, a token hops from task to task, every hop waking the next ring task and
+/// a leaf (two wake-ups per poll on several workers at once: LIFO slot, local queue, sibling activation, stealing).
+#[derive(Deserialize)]
+struct Rings {
+    rings: u64,
+    len: u64,
+    hops: u64,
+    rounds: u64,
+}
+
 #[derive(Deserialize)]
 struct Input {
     nw: usize,
@@ -48,6 +58,8 @@ struct Input {
     drop_after: bool,
     #[serde(default)]
     big: Option<Big>,
+    #[serde(default)]
+    rings: Option<Rings>,
 }
 
 thread_local! { static WORKER: Cell<i64> = const { Cell::new(-1) }; }
@@ -177,6 +189,60 @@ impl Future for Leaf {
     }
 }
 
+/// A task of a ring (or its leaf, `next == 0`): polled once per wake-up; while hops are left it wakes the next task of
+/// the ring and the ring's leaf.
+struct RingTask {
+    id: u64,
+    next: u64,
+    leaf: u64,
+    first: bool,
+    hops: Arc<std::sync::atomic::AtomicI64>,
+    sh: Arc<Shared>,
+}
+impl Future for RingTask {
+    type Output = ();
+    fn poll(mut self: Pin<&mut Self>, cx: &mut Context<'_>) -> Poll<()> {
+        if self.first {
+            self.first = false;
+            self.sh.wakers.lock().unwrap().insert(self.id, cx.waker().clone());
+            return Poll::Pending;
+        }
+        self.sh.polled.fetch_add(1, Ordering::Relaxed);
+        if self.next != 0 && self.hops.fetch_sub(1, Ordering::Relaxed) > 0 {
+            let (a, b) = {
+                let m = self.sh.wakers.lock().unwrap();
+                (m.get(&self.next).cloned(), m.get(&self.leaf).cloned())
+            };
+            if let Some(w) = a {
+                w.wake_by_ref();
+            }
+            if let Some(w) = b {
+                w.wake_by_ref();
+            }
+        }
+        Poll::Pending
+    }
+}
+
+/// Wakes the first task of every ring.
+struct RingKicker {
+    heads: Vec<u64>,
+    sh: Arc<Shared>,
+}
+impl Future for RingKicker {
+    type Output = ();
+    fn poll(self: Pin<&mut Self>, _cx: &mut Context<'_>) -> Poll<()> {
+        let wakers: Vec<Waker> = {
+            let m = self.sh.wakers.lock().unwrap();
+            self.heads.iter().filter_map(|t| m.get(t).cloned()).collect()
+        };
+        for w in wakers {
+            w.wake_by_ref();
+        }
+        Poll::Ready(())
+    }
+}
+
 /// Wakes every leaf from one poll (more than the local queue can hold) and accounts one message sent to each.
 struct Kicker {
     n: u64,
@@ -204,7 +270,7 @@ pub fn main(args: &[String]) {
     std::panic::set_hook(Box::new(|_| {}));
     let sh = Arc::new(Shared {
         log: Mutex::new(Vec::new()),
-        quiet: inp.big.is_some(),
+        quiet: inp.big.is_some() || inp.rings.is_some(),
         ids: Mutex::new(HashMap::new()),
         next_spawn: Mutex::new(None),
         wakers: Mutex::new(HashMap::new()),
@@ -241,6 +307,58 @@ pub fn main(args: &[String]) {
                 }
             }
         });
+    }
+    if let Some(rg) = &inp.rings {
+        let mut pool = VPool::new(inp.nw);
+        let mut hops = Vec::new();
+        let mut heads = Vec::new();
+        for r in 0..rg.rings {
+            let base = r * (rg.len + 1);
+            let h = Arc::new(std::sync::atomic::AtomicI64::new(0));
+            hops.push(h.clone());
+            heads.push(base + 1);
+            for i in 0..rg.len {
+                pool.spawn(RingTask {
+                    id: base + 1 + i,
+                    next: base + 1 + (i + 1) % rg.len,
+                    leaf: base + rg.len + 1,
+                    first: true,
+                    hops: h.clone(),
+                    sh: sh.clone(),
+                });
+            }
+            pool.spawn(RingTask { id: base + rg.len + 1, next: 0, leaf: 0, first: true, hops: h.clone(), sh: sh.clone() });
+        }
+        let r0 = std::panic::catch_unwind(std::panic::AssertUnwindSafe(|| pool.run(Duration::ZERO))).map_err(|_| ());
+        let (mut v, mut ok) = result_json(0, r0);
+        v["left"] = json!(0);
+        writeln!(out.lock().unwrap(), "{}", v).unwrap();
+        let mut k = 0;
+        while ok && k < rg.rounds {
+            k += 1;
+            sh.progress.fetch_add(1, Ordering::Relaxed);
+            for h in &hops {
+                h.store(rg.hops as i64, Ordering::Relaxed);
+            }
+            pool.spawn(RingKicker { heads: heads.clone(), sh: sh.clone() });
+            let r = std::panic::catch_unwind(std::panic::AssertUnwindSafe(|| pool.run(Duration::ZERO))).map_err(|_| ());
+            let (mut v, o) = result_json(k as usize, r);
+            ok = o;
+            // every ring must have used up its hops: the token's next task is always woken, hence always polled
+            let left: i64 = hops.iter().map(|h| h.load(Ordering::Relaxed).max(0)).sum();
+            v["left"] = json!(left);
+            if !ok || left != 0 || k == rg.rounds {
+                writeln!(out.lock().unwrap(), "{}", v).unwrap();
+            }
+            if left != 0 {
+                break;
+            }
+        }
+        sh.wakers.lock().unwrap().clear();
+        drop(pool);
+        writeln!(out.lock().unwrap(), "{}", json!({"ev": "end", "rounds": k})).unwrap();
+        out.lock().unwrap().flush().unwrap();
+        return;
     }
     if let Some(big) = &inp.big {
         let mut pool = VPool::new(inp.nw);
